@@ -159,8 +159,13 @@ class AnmCases:
                  ("sub", ("ext", "numpy.where", (("cmp", "!=", colA, ("const", 0)),), ()), ("const", 0)), ("sub", ("ext", "numpy.where", (colA,), ()), ("const", 0)),
                  ("ext", "numpy.flatnonzero", (("cmp", "!=", colA, ("const", 0)),), ())]
         pa_sorted = ("ext", "sorted", (("call", U + "pa", (self.i, ("self", "A")), (("A", ("self", "A")), ("i", self.i))),), ())
+        # the sorted parent list packed into an integer index array (the dtype matters: np.array([]) of a node without parents is a float array, not an index)
+        INTS = (("extref", "int"), ("extref", "numpy.intp"), ("extref", "numpy.int64"), ("extref", "numpy.int_"), ("const", "int"), ("const", "intp"), ("const", "int64"))
+        pa_arrays = [("ext", fn_, (pa_sorted,), (("dtype", dt_),)) for fn_ in ("numpy.array", "numpy.asarray") for dt_ in INTS] + \
+                    [("ext", fn_, (pa_sorted, dt_), ()) for fn_ in ("numpy.array", "numpy.asarray") for dt_ in INTS] + \
+                    [("ext", "list", (pa_sorted,), ()), ("ext", "tuple", (pa_sorted,), ())]
         ok = a[0] == "sub" and a[1] == self.X and a[2][0] == "tuple" and len(a[2][1]) == 2 and a[2][1][0] == FULL and \
-            (a[2][1][1] in masks or a[2][1][1] == pa_sorted)
+            (a[2][1][1] in masks or a[2][1][1] == pa_sorted or a[2][1][1] in pa_arrays)
         def decided_form(sel):
             # a mask / index list taken straight from one row or column of self.A at the loop variable, or from a relation helper called on it:
             # these are read, and if they are not one of the accepted spellings they are wrong (children instead of parents, `> 0`, set order)
